@@ -4,10 +4,14 @@ Domain: a moduli file of 0-40 lines written to disk and loaded with ModulusPack.
   * structured lines "timestamp type tests tries size generator modulus" with type 0..5,
     tests 0..15, tries in {0, 99, 100, 200}, generator in {0, 2, 5}, modulus an odd integer of
     bit length bl in {1023..16384 (around the usual sizes)}, reported size = bl-1 (as real
-    moduli files do), bl, or wrong (bl+1, bl-2, bl+7, 0);
+    moduli files do), bl, or wrong (bl+1, bl-2, bl+7, 0), or derived from the WRITTEN width (4 bits per hex digit
+    incl. padding: 4n, 4n-1, 4(n-1), 4(n-1)-1, 4n-3); the modulus is written in upper / lower / mixed case hex with
+    0-9 leading zero digits (the number, not its spelling, has a bit length); generated leading / trailing
+    whitespace (blanks, tabs, CR before the newline) and separators;
   * malformed lines (too few/many fields, non-numeric fields, bad hex), comments, blanks.
   1-6 requests (min, prefer, max) in [0, 20000]^3, dense around the generated sizes,
-  including inverted (min > max, prefer outside [min, max]) and out-of-range triples;
+  including inverted (min > max, prefer outside [min, max]) and out-of-range triples (a quarter each: unordered,
+  min <= prefer <= max, prefer <= min <= max, min <= max <= prefer);
   get_modulus is called 20x per request (it picks at random among equal sizes).
 "size" of a group is the bit length of its modulus (RFC 4419; it is also the key of
 ModulusPack.pack).
@@ -29,7 +33,8 @@ PROPERTY = "C43"
 LEVEL = "exploration"
 RULE = (
     "hypothesis-generated moduli files (0-40 lines: structured lines with type 0-5, tests 0-15, tries {0,99,100,200}, "
-    "generator {0,2,5}, odd moduli of 16 bit lengths 1023..16384, reported size bl-1/bl/wrong; malformed/comment/blank lines) "
+    "generator {0,2,5}, odd moduli of 16 bit lengths 1023..16384 spelled in upper/lower/mixed-case hex with 0-9 leading zero digits, "
+    "reported size bl-1/bl/wrong or derived from the written digit count; leading/trailing blanks, tabs, CRLF; malformed/comment/blank lines) "
     "loaded with read_file, and 1-6 (min, prefer, max) requests from [0,20000]^3 dense at size+-1, each asked 20 times; "
     "non-trivial = the file has >= 2 distinct valid sizes and some request's [min,max] contains at least one valid size but not all of them; "
     "distinct by SHA-1 of (lines, requests)"
@@ -48,7 +53,12 @@ mod_line = st.fixed_dictionaries(
         "gen": st.sampled_from([2, 2, 5, 0]),
         "bl": st.sampled_from(BITLENS),
         "tag": st.integers(0, (1 << 32) - 1),
-        "sep": st.sampled_from([" ", " ", " ", "\t", "  "]),
+        "sep": st.sampled_from([" ", " ", " ", "\t", "  ", " \t "]),
+        "pad": st.sampled_from([0, 0, 0, 1, 2, 3, 4, 9]),  # leading zero hex digits
+        "hexcase": st.integers(0, 2),  # upper, lower, mixed
+        "reptext": st.sampled_from([None, None, None, None, 0, -1, -4, -5, -3]),  # not None: reported size = 4 * written digits + reptext
+        "lead": st.sampled_from(["", "", "", " ", "\t", "   "]),
+        "trail": st.sampled_from(["", "", "", " ", "\t", "\r", " \r"]),
     }
 )
 
@@ -80,6 +90,10 @@ good_line = st.fixed_dictionaries(
         "bl": st.sampled_from(BITLENS),
         "tag": st.integers(0, (1 << 32) - 1),
         "sep": st.just(" "),
+        "pad": st.sampled_from([0, 0, 0, 1, 2, 3, 9]),
+        "hexcase": st.integers(0, 2),
+        "lead": st.sampled_from(["", "", "", " ", "\t"]),
+        "trail": st.sampled_from(["", "", "", " ", "\r"]),
     }
 )
 _line = st.one_of(good_line, good_line, good_line, mod_line, mod_line, raw_line)
@@ -89,21 +103,42 @@ _near = st.builds(lambda b, d: max(0, b + d), st.sampled_from(BITLENS), st.sampl
 bound = st.one_of(_near, _near, st.integers(0, 20000), st.sampled_from([0, 1, 1024, 2048, 4096, 8192, 20000]))
 request = st.tuples(bound, bound, bound)
 ordered_request = request.map(lambda t: tuple(sorted(t)))
-case_st = st.tuples(lines_st, st.lists(st.one_of(request, ordered_request), min_size=1, max_size=6))
+# out-of-range preferred sizes with a proper [min, max]: prefer <= min <= max and min <= max <= prefer
+prefer_below_min = ordered_request.map(lambda t: (t[1], t[0], t[2]))
+prefer_above_max = ordered_request.map(lambda t: (t[0], t[2], t[1]))
+case_st = st.tuples(lines_st, st.lists(st.one_of(request, ordered_request, prefer_below_min, prefer_above_max), min_size=1, max_size=6))
 
 
 def _modulus(ln):
     return (1 << (ln["bl"] - 1)) | (ln["tag"] << 1) | 1
 
 
+def _hex(ln):
+    """The modulus as written: case and leading zeros do not change the number."""
+    h = "0" * ln.get("pad", 0) + "%X" % _modulus(ln)
+    c = ln.get("hexcase", 0)
+    if c == 1:
+        h = h.lower()
+    elif c == 2:
+        h = h[: len(h) // 3] + h[len(h) // 3 :].lower()
+    return h
+
+
+def _ndigits(ln):
+    return ln.get("pad", 0) + (ln["bl"] + 3) // 4
+
+
 def _reported(ln):
+    if ln.get("reptext") is not None:
+        return 4 * _ndigits(ln) + ln["reptext"]
     return 0 if ln["rep"] is None else ln["bl"] + ln["rep"]
 
 
 def _text(ln):
     if ln["k"] == "raw":
         return ln["text"]
-    return ln["sep"].join(["20240101000000", str(ln["type"]), str(ln["tests"]), str(ln["tries"]), str(_reported(ln)), str(ln["gen"]), "%X" % _modulus(ln)])
+    fields = ["20240101000000", str(ln["type"]), str(ln["tests"]), str(ln["tries"]), str(_reported(ln)), str(ln["gen"]), _hex(ln)]
+    return ln.get("lead", "") + ln["sep"].join(fields) + ln.get("trail", "")
 
 
 def _why_invalid(ln):
@@ -183,6 +218,17 @@ def _phase(ctx, jcase, holder, how, lines, requests, phase, second):
         classes.append("has-invalid-lines")
     if any(ln["k"] == "raw" for ln in lines):
         classes.append("has-malformed-lines")
+    for ln in mods:
+        ok = _why_invalid(ln) is None
+        if ln.get("pad"):
+            classes.append("zero-padded-hex:" + ("valid-line" if ok else "invalid-line"))
+            if not ok and _why_invalid(ln) == "reported-bit-length" and 4 * _ndigits(ln) - _reported(ln) in (0, 1, 4, 5):
+                classes.append("zero-padded-hex:reported-size-fits-written-width-only")
+        if ln.get("hexcase"):
+            classes.append("lowercase-or-mixed-hex")
+        if ln.get("lead") or ln.get("trail"):
+            classes.append("leading-or-trailing-whitespace")
+    classes = sorted(set(classes))
     if phase == 1:
         if second:
             classes.append("history:reload-via-" + how)
@@ -261,10 +307,10 @@ def _phase(ctx, jcase, holder, how, lines, requests, phase, second):
 
 
 def run(ctx):
-    ctx.set_budget(60, 840)
-    ctx.explore(case_st, lambda c: execute(ctx, c), ctx.scale(1800, 30000))
+    ctx.set_budget(80, 840)
+    ctx.explore(case_st, lambda c: execute(ctx, c), ctx.scale(1650, 30000))
     two = st.tuples(case_st, case_st, st.sampled_from(["read_file", "load_server_moduli"])).map(lambda t: (t[0][0], t[0][1], t[1][0], t[1][1], t[2]))
-    ctx.explore(two, lambda c: execute(ctx, c), ctx.scale(500, 8000), seed_offset=1)
+    ctx.explore(two, lambda c: execute(ctx, c), ctx.scale(450, 8000), seed_offset=1)
 
 
 def replay(ctx, case):
